@@ -35,6 +35,16 @@ CLAIMED = {
         text="TLC checks SamplerLaw for every draw order with repetitions on small vectors, and that the Vose alias construction (as coded: two LIFO stacks, both leftover loops) and the implicit-heap cumulative tree induce exactly the target law for every integer weight vector (length <= 5, sum <= 8; zeros, ties, single non-zero entry). Every real sampler (alias, table, binary search tree, Huffman, inversion, adapted tree 1-d and n-d), built directly on all those vectors and through the public factory for every SamplingMethod on atomic chains in 1-d, 2-d, 3-d, is swept over a lattice of uniforms through the single-uniform entry point and through the batch call with the generator scripted, after arbitrary draw histories; TLC validates: count_k * S = N * W_k exactly, never a zero-weight / out-of-grid / origin state, memo never contradicted.",
         note="Trusted: TLC, atomic measure / table copula stubs (integer masses), scripted generator. Table method judged up to its 2^-24 resolution. Huffman / inversion / adapted trees have no implementation-shaped TLA+ module yet (law-level verdict only).",
         ref="5 (C02)"),
+    "C01": dict(
+        technique="TLA+ spec Chain.tla (cells, rates, intensity over atomic Levy measures) model-checked by TLC on lattice grids; rates / intensities / tree buckets recorded from real 1-d and copula chains trace-validated by TLC against exact atomic masses",
+        text="TLC checks on all small lattice grids (d = 1..3, levels 0..1) that the cells tile the truncation box minus the central cell, each state lies in its own cell and the rates sum to the intensity. Real MarkovChainProcess / MarkovChainLevyCopula objects are built over atomic Levy measures and table copulas on fixed-size, irregular, geometric, probability-step, credit (1-d and n-d, symmetric / asymmetric), user-built per-axis and aliased-axis grids, refined 0..2 times in place; every state's rate through create_q_vector, through the inversion factory, the adapted tree's buckets and left/right split, and the reported intensity are recorded as exact integers and TLC recomputes each as the mass of the state's cell (boundaries = the grid's own middle()).",
+        note="Trusted: TLC, atomic measure / table copula stubs, rank sensor. Real models only through the thin quantised clause sum(rates) = intensity; the closed-form integrals themselves are C09 (not applicable).",
+        ref="5 (C01)"),
+    "C04": dict(
+        technique="TLA+ definitions of the truncated process' mean / variance rule over atomic measures (Trace_Chain.tla on Chain.tla); drift and equivalent diffusion coefficient recorded from real chains validated by TLC in exact integer arithmetic",
+        text="For 1-d chains in all four declared Levy-Khintchine representations x finite/infinite variation flag x diffusion on/off, and for each margin of 2-d / 3-d copula chains (aliased and per-axis grids, refined in place), TLC checks process_drift + sum_k x_k rate_k = canonical drift of the truncated process + its large-jump first moment (exact integers in lattice units), and equivalent variance = sigma^2 + [infinite variation] second moment of the atoms in the central cell.",
+        note="Trusted: TLC, atomic stubs, exact-integer sensor. Lattice grids only (exact moments). The x^2-oscillation bound on the total variance is not evaluated. Copula chains with the finite-variation flag only.",
+        ref="5 (C04)"),
 }
 
 NOT_APPLICABLE = {
